@@ -7,6 +7,7 @@ import (
 	"sort"
 	"strings"
 	"testing"
+	"time"
 
 	"github.com/istio-ecosystem/authservice/internal/oidc"
 	"github.com/istio-ecosystem/authservice/verif/sim"
@@ -564,15 +565,82 @@ func c02TwoFilters(c *sim.Case) {
 	c.FP(order)
 }
 
+// c02Rotation: keys configured through jwks_fetcher are the keys the provider publishes, re-read at the configured
+// interval. The provider withdraws its signing key; once a control deployment (same configuration, plain JWKS answers)
+// has been seen re-reading the key set, a token signed with the withdrawn key must not be bound any more - whatever
+// cache directives the JWKS answers of the deployment under test carry. Real time; inconclusive when the control
+// deployment does not re-read within 8 intervals (saturated machine).
+func c02Rotation(c *sim.Case) {
+	order := sim.Pick(c, "order", 16) // sharding draw
+	directives := []map[string]string{
+		nil,
+		{"Cache-Control": "max-age=3600"},
+		{"Cache-Control": "public, max-age=86400, immutable"},
+		{"Expires": "Thu, 01 Jan 2099 00:00:00 GMT"},
+		{"Cache-Control": "max-age=0, must-revalidate"},
+		{"Cache-Control": "no-store", "Pragma": "no-cache"},
+		{"Cache-Control": "max-age=3600", "ETag": "\"v1\"", "Last-Modified": "Mon, 02 Jan 2006 15:04:05 GMT"},
+		{"Age": "10", "Cache-Control": "s-maxage=7200"},
+	}
+	hdr := directives[order%len(directives)]
+	store := []string{"memory", "redis"}[order/8]
+	mk := func(h map[string]string, prefix string) *sim.World {
+		w := sim.NewWorld(c, sim.WorldOpts{ViaServer: true, JwksFetchSec: 1, CookiePrefix: prefix, Store: store})
+		w.IdP.JWKSHeaders = h
+		return w
+	}
+	ctl, tst := mk(nil, "ctl"), mk(hdr, "tst")
+	defer ctl.Close()
+	defer tst.Close()
+	for _, w := range []*sim.World{ctl, tst} {
+		if lr := w.NewBrowser("a").Login("/app"); lr.Final == nil || !lr.Final.OK {
+			c.Violation("login-failed", "honest login with keys from jwks_fetcher failed: %s", lr.Err)
+		}
+	}
+	oldC, tC := ctl.IdP.WithdrawSigningKey(1)
+	oldT, _ := tst.IdP.WithdrawSigningKey(2)
+	deadline := time.Now().Add(8 * time.Second)
+	for !ctl.IdP.JWKSFetchedAfter(tC) {
+		if time.Now().After(deadline) {
+			c.Skip("the control deployment did not re-read its key set within 8 fetch intervals (saturated machine): nothing to compare with")
+		}
+		time.Sleep(50 * time.Millisecond)
+	}
+	time.Sleep(600 * time.Millisecond)
+	waited := time.Since(tC)
+	try := func(w *sim.World, old *sim.Key, what string) {
+		w.IdP.Push(&sim.Behaviour{Name: "signed-with-withdrawn-key", Mutate: func(p *sim.IdP, _ string, cl map[string]any, _ *sim.TokenCall) string {
+			return sim.HonestToken(old, cl)
+		}})
+		lr := w.NewBrowser("b").Login("/app")
+		w.IdP.Next = nil
+		accepted := lr.Final != nil && lr.Final.OK
+		c.Logf("%s: %.1fs after the key was withdrawn (fetch interval 1 s, JWKS headers %v) a token signed with it -> accepted=%v (%s)", what, waited.Seconds(), w.IdP.JWKSHeaders, accepted, lr.Err)
+		if accepted {
+			c.Violation("withdrawn-key-accepted:"+what, "%.1fs after the provider withdrew its signing key (periodic_fetch_interval_sec=1; a deployment with the same configuration re-read the key set meanwhile) a token signed with the withdrawn key was bound and honoured; JWKS answer headers: %v", waited.Seconds(), w.IdP.JWKSHeaders)
+		}
+	}
+	try(ctl, oldC, "plain-jwks-answers")
+	name := "plain-jwks-answers"
+	if hdr != nil {
+		name = "jwks-answers-with-cache-directives"
+	}
+	try(tst, oldT, name)
+	c.NonTrivial()
+	c.FP("rotation", order)
+	c.Class("rotation:" + name)
+}
+
 func TestC02(t *testing.T) {
 	r := sim.NewRun(t, "C02")
 	defer r.Finish()
-	r.Rule = fmt.Sprintf("token-endpoint answers from an adversarial grammar of %d forgery classes (alg none x3, HS256 keyed with the public key as PEM/DER/JWK/empty, foreign key under right/unknown/no kid, kid of another published key, embedded jwk, jku/x5u/x5c, payload edited, signature flipped/truncated/extended/stripped, extra/empty segments, JSON serialisations, garbage; validly signed tokens with absent/foreign/near-miss/array/non-string aud and absent/foreign/empty/near-miss/non-string nonce) on the login and the refresh path, mixed with honest answers, x header/preamble configurations x RSA/EC keys with and without alg among 1-3 published keys. Part 'each': every class x {login, refresh} x store x key kind, exhaustively. Part 'two-filters': two filters with different static key sets behind one assembled service; a token signed with the other filter's provider key arrives through this filter's token endpoint. Part 'concurrent': two checks on one expired session under the harness-owned scheduler (all interleavings at store-call / token-call / key-lookup granularity) while the refresh is answered with an unacceptable but parseable, unexpired token. Non-trivial = the history served at least one unacceptable token and completed at least one honest exchange; distinct = distinct (config, behaviour tags, step verdicts).", len(forges)+len(typeForges)+len(acceptable))
+	r.Rule = fmt.Sprintf("token-endpoint answers from an adversarial grammar of %d forgery classes (alg none x3, HS256 keyed with the public key as PEM/DER/JWK/empty, foreign key under right/unknown/no kid, kid of another published key, embedded jwk, jku/x5u/x5c, payload edited, signature flipped/truncated/extended/stripped, extra/empty segments, JSON serialisations, garbage; validly signed tokens with absent/foreign/near-miss/array/non-string aud and absent/foreign/empty/near-miss/non-string nonce) on the login and the refresh path, mixed with honest answers, x header/preamble configurations x RSA/EC keys with and without alg among 1-3 published keys. Part 'each': every class x {login, refresh} x store x key kind, exhaustively. Part 'two-filters': two filters with different static key sets behind one assembled service; a token signed with the other filter's provider key arrives through this filter's token endpoint. Part 'rotation' (real time): keys from jwks_fetcher with a 1 s interval; the provider withdraws its signing key; once a control deployment has been seen re-reading the key set, a token signed with the withdrawn key must not be bound, whatever cache directives (8 header sets) the JWKS answers carry. Part 'concurrent': two checks on one expired session under the harness-owned scheduler (all interleavings at store-call / token-call / key-lookup granularity) while the refresh is answered with an unacceptable but parseable, unexpired token. Non-trivial = the history served at least one unacceptable token and completed at least one honest exchange; distinct = distinct (config, behaviour tags, step verdicts).", len(forges)+len(typeForges)+len(acceptable))
 	r.Assumptions = []string{
 		"the oracle's verifier uses only crypto/* and encoding/json and is lenient (bound => must verify), so it never demands more than the statement",
 		"a panic while handling a forged token counts as 'not bound' here; crashes are C15's",
+		"with jwks_fetcher the configured key set is what the provider publishes, re-read at periodic_fetch_interval_sec; the rotation part is inconclusive (skipped) when its control deployment does not re-read in time",
 	}
-	parts := map[string]func(*sim.Case){"histories": c02Prop, "each": c02Each, "concurrent": c02Concurrent, "two-filters": c02TwoFilters}
+	parts := map[string]func(*sim.Case){"histories": c02Prop, "each": c02Each, "concurrent": c02Concurrent, "two-filters": c02TwoFilters, "rotation": c02Rotation}
 	if r.Replay != "" {
 		r.ReplayFile(parts)
 		return
@@ -581,6 +649,7 @@ func TestC02(t *testing.T) {
 	r.Exhaustive("each", 0, c02Each)
 	r.Exhaustive("concurrent", 0, c02Concurrent)
 	r.Exhaustive("two-filters", 0, c02TwoFilters)
+	r.Exhaustive("rotation", 0, c02Rotation)
 	r.Rapid("histories", r.N(12000, 200000), c02Prop)
 }
 
